@@ -373,6 +373,7 @@ class HttpStreamSession:
         "_on_log",
         "_output_schema",
         "_pending_batches",
+        "_pending_error",
         "_retry_config",
         "_state_bytes",
         "_url_prefix",
@@ -395,6 +396,7 @@ class HttpStreamSession:
         header: object | None = None,
         retry_config: HttpRetryConfig | None = None,
         compression_level: int | None = None,
+        pending_error: RpcError | None = None,
     ) -> None:
         """Initialize with HTTP client, method details, and initial state."""
         self._client = client
@@ -411,6 +413,10 @@ class HttpStreamSession:
         self._external_config = external_config
         self._ipc_validation = ipc_validation
         self._pending_batches: list[AnnotatedBatch] = pending_batches or []
+        # An error the init response carried *after* data batches: raised once
+        # those batches have been handed to the caller, as on every other
+        # transport (the stream is observed up to and including its first error).
+        self._pending_error = pending_error
         self._finished = finished
         self._header = header
         self._retry_config = retry_config
@@ -632,6 +638,10 @@ class HttpStreamSession:
         yield from self._pending_batches
         self._pending_batches.clear()
 
+        if self._pending_error is not None:
+            pending_error, self._pending_error = self._pending_error, None
+            raise pending_error
+
         if self._finished:
             return
 
@@ -706,6 +716,10 @@ class HttpStreamSession:
                 raise RuntimeError(_multi)
             return self._pending_batches.pop(0), self._resume_token()
 
+        if self._pending_error is not None:
+            pending_error, self._pending_error = self._pending_error, None
+            raise pending_error
+
         if self._finished or self._state_bytes is None:
             self._finished = True
             return None, None
@@ -765,6 +779,7 @@ class HttpStreamSession:
         """
         self._state_bytes, self._call_state_bytes = _decode_resume_token(token)
         self._pending_batches = []
+        self._pending_error = None
         self._finished = False
 
     def close(self) -> None:
@@ -1008,6 +1023,7 @@ def _init_http_stream_session(
     state_bytes: bytes | None = None
     call_state_bytes: bytes | None = None
     pending_batches: list[AnnotatedBatch] = []
+    pending_error: RpcError | None = None
     finished = False
 
     try:
@@ -1040,11 +1056,18 @@ def _init_http_stream_session(
                 batch, custom_metadata, external_config, on_log, reader.ipc_validation
             )
             pending_batches.append(AnnotatedBatch(batch=resolved_batch, custom_metadata=resolved_cm))
-    except RpcError:
+    except RpcError as exc:
         _drain_stream(reader)
-        raise
-
-    _drain_stream(reader)
+        if not pending_batches:
+            raise
+        # The producer emitted data in this (init) turn before failing — only
+        # possible when max_response_bytes lets a turn carry several batches.
+        # Hand the batches over first and raise the error after them, exactly
+        # as a continuation turn (and every other transport) does.
+        pending_error = exc
+        finished = True
+    else:
+        _drain_stream(reader)
 
     return HttpStreamSession(
         client=client,
@@ -1061,6 +1084,7 @@ def _init_http_stream_session(
         header=header,
         retry_config=retry_config,
         compression_level=compression_level,
+        pending_error=pending_error,
     )
 
 
